@@ -106,6 +106,18 @@ def run(env):
                 env.violation("generators depend on call history on %s: call #%d generators(%d, %s) after %s differs from a fresh process at index %s"
                               % (ctx, k, n, sd, seq[:k], bad), {"kind": "battery", "case": sc[:k + 1], "out": o if not isinstance(o, list) else o[:8]})
                 break
+    # several threads asking for the same (cold) seed at the same moment, then a longer request: every answer is the
+    # prefix of what a fresh process derives
+    for ctx in ("R", "B:2039", "M:2039"):
+        for rep in range(2):
+            sd = "x:7468" + "%02x" % rep
+            got = env.harness([{"ctx": ctx, "op": "generators_threads", "args": ["8", "40", sd], "tag": "concurrent-cold-seed"}])[0]
+            ref = env.harness([{"ctx": ctx, "op": "generators", "args": ["80", sd], "tag": "concurrent-cold-seed-ref"}])[0]
+            if not isinstance(got, list) or any(x != ref[:40] for x in got[0]) or got[1] != ref:
+                env.violation("generators requested concurrently by 8 threads (40 each) and then 80 on %s: answers are not prefixes of the derivation a fresh process computes" % ctx,
+                              {"kind": "battery", "case": {"ctx": ctx, "op": "generators_threads", "args": ["8", "40", sd]},
+                               "out": str(got)[:400]})
+                break
     fails = env.tie(items, "C17", shard=6)
     # ristretto against SHAKE-256 (hashlib) + dalek's from_uniform_bytes
     for sd, n in ((b"", 40 if env.quick else 2000), (b"seed", 40 if env.quick else 2000), (b"\xff", 40), (r.randbytes(1024), 40), (b"large", 1100 if env.quick else 5000)):
